@@ -117,6 +117,34 @@ theorem fallback_never_revives (own glob : Cache) (now now' : Nat) (sid : Str) (
   rw [h1]
   exact fallback_dead_not_resumed own _ now' sid w' n' ra' (Or.inl ho) (Or.inl (get_invalidate_self _ sid))
 
+/-- **client_explicit_needs_key** (client side of "a session without a key is never resumed", the
+    explicit-SessionID path; did not hold of the code as found — F-C06-client-explicit-keyless): a
+    client handshake that names a cached session by id and reports it resumed found a live entry
+    carrying a key under an AES-GCM protocol name, and reports that key. -/
+theorem client_explicit_needs_key (c : Cache) (now : Nat) (sid : Str) (ans : ServerAnswer) (ra : Bool)
+    (c' : Cache) (sid' : Str) (key : Option Nat) (user : String) (auth : Bool)
+    (h : clientById c now sid ans ra = (c', .resumed sid' key user auth)) :
+    key.isSome = true ∧ ∃ e, c.get sid = some e ∧ e.key = key ∧ (e.crypto = "AES" ∨ e.crypto = "AESGCM") := by
+  unfold clientById Cache.lookupNonExpired at h
+  cases hg : c.get sid with
+  | none => simp [hg] at h
+  | some e =>
+    simp only [hg] at h
+    by_cases hx : e.expired now = true
+    · simp [hx] at h
+    · simp only [hx, Bool.false_eq_true, if_false] at h
+      by_cases hg2 : (!(e.key.isSome && (e.crypto == "AES" || e.crypto == "AESGCM")) || (ra && !e.authenticated)) = true
+      · rw [if_pos hg2] at h; simp at h
+      · rw [if_neg hg2] at h
+        have hk : (e.key.isSome && (e.crypto == "AES" || e.crypto == "AESGCM")) = true := by
+          cases hk : (e.key.isSome && (e.crypto == "AES" || e.crypto == "AESGCM")) with
+          | true => rfl
+          | false => exfalso; apply hg2; simp [hk]
+        simp only [Bool.and_eq_true, Bool.or_eq_true, beq_iff_eq] at hk
+        cases ans <;> simp at h
+        obtain ⟨_, _, hkey, _, _⟩ := h
+        exact ⟨by rw [← hkey]; exact hk.1, e, rfl, hkey, hk.2⟩
+
 private def liveEntry : Entry :=
   { id := ['s'], addr := [], key := some 1, crypto := "AES", user := "u", authenticated := true,
     validCommands := [], expiration := none, lease := 0, tag := [] }
@@ -168,6 +196,74 @@ theorem replay_rejected (r : Stream) (k : Nat) (f : WireFrame) (iv : Option IV) 
 /-- distinct cleartext transcripts have distinct (symbolic) digests -/
 theorem digests_differ (a b : Bytes) (h : a ≠ b) : Digest.H a ≠ Digest.H b := by
   intro heq; injection heq with h'; exact h h'
+
+/-! ### the legacy no-reply mode: the part of "replays are rejected" that does NOT hold
+
+`handleSessionResumption` answers only a request that carries `ResumeResponse = true`. A request
+without it gets no server message at all before the protected traffic: the server's stream has
+received the (fixed) request bytes, has sent nothing, and is keyed. -/
+
+/-- the server's stream after `handleSessionResumption` accepted the cleartext request bytes `req`:
+    they were fed to the receive digest; the reply — present only when one was asked for, and then
+    carrying the fresh `ResumeNonce` — to the send digest; then the session key `k` was installed
+    (`setupStreamEncryption`, own fresh base IV `iv`). -/
+def serverAfterResume (req : Bytes) (reply : Option Bytes) (k : Nat) (iv : IV) : Stream :=
+  let s0 : Stream := ({} : Stream).feedRecv req
+  let s1 : Stream := match reply with
+    | none => s0
+    | some b => { s0 with dig := s0.dig.feedSend b }
+  s1.setKey k iv
+
+/-- "a replay of a recorded resumed connection is rejected", stated for the no-reply mode: whatever
+    first frame a server connection of the session accepted, a second server connection that
+    received the same request bytes (and, like the first, sent nothing) rejects. -/
+def noreply_replay_statement : Prop :=
+  ∀ (req : Bytes) (k : Nat) (iv1 iv2 : IV) (f : WireFrame),
+    ((serverAfterResume req none k iv1).recvFrameWithEnd f).toBool = true →
+    ((serverAfterResume req none k iv2).recvFrameWithEnd f).toBool = false
+
+/-- the recorded first protected frame of a legitimate key-holding requester (its own base IV,
+    AAD digests = (what it sent, what it received) = (H request, nothing)) -/
+private def recordedFrame : WireFrame :=
+  ⟨0, 33, .ct (some ⟨5, []⟩) ⟨7, (⟨5, []⟩ : IV).nonce 0, ⟨some (.H [1, 2, 3], .zero), 0, 33⟩, [42]⟩⟩
+
+/-- **noreply_replay_fails** (known finding F-C06-noreply-replay): in the no-reply mode the
+    statement is false — the recorded frame authenticates on a second connection. -/
+theorem noreply_replay_fails : ¬ noreply_replay_statement := by
+  intro h
+  have := h [1, 2, 3] 7 ⟨1, []⟩ ⟨2, []⟩ recordedFrame (by decide)
+  revert this
+  decide
+
+/-- **noreply_digests_repeat**: why — `replay_rejected` needs the recorded frame's AAD digests to
+    differ from the fresh connection's `(dig.fr, dig.fs)`. In the no-reply mode they cannot differ:
+    every server connection that received the same request has the same two digests (the receive
+    digest is a function of the request, the send digest is the unused-direction placeholder), so a
+    frame whose AAD matched the first connection matches every later one. The freshness hypothesis
+    `hdiff` of `replay_rejected` is exactly what fails. -/
+theorem noreply_digests_repeat (req : Bytes) (k : Nat) (iv1 iv2 : IV) :
+    ((serverAfterResume req none k iv1).dig.fr, (serverAfterResume req none k iv1).dig.fs) =
+    ((serverAfterResume req none k iv2).dig.fr, (serverAfterResume req none k iv2).dig.fs) ∧
+    (serverAfterResume req none k iv2).dig.fs = .zero := by
+  refine ⟨rfl, rfl⟩
+
+/-- **reply_replay_rejected** (the part that holds): when a reply was asked for, the two
+    connections' replies differ (fresh `ResumeNonce`), and then a frame sealed over the first
+    connection's digests is rejected by the second — for every request, key, IVs and frame. -/
+theorem reply_replay_rejected (req b1 b2 : Bytes) (k : Nat) (iv2 : IV) (f : WireFrame) (iv : Option IV) (sl : Sealed)
+    (hfresh : b1 ≠ b2)
+    (hb : f.body = .ct iv sl)
+    (hrec : sl.aad.digests = some (.H req, .H b1)) :
+    ∃ e, (serverAfterResume req (some b2) k iv2).recvFrameWithEnd f = .error e := by
+  apply replay_rejected (serverAfterResume req (some b2) k iv2) k f iv sl rfl rfl rfl rfl hb
+  rw [hrec]
+  intro heq
+  have : (Digest.H b1) = (serverAfterResume req (some b2) k iv2).dig.fs := by
+    injection heq with h1; injection h1 with _ h2
+  have h3 : (serverAfterResume req (some b2) k iv2).dig.fs = .H b2 := by
+    simp [serverAfterResume, Stream.setKey, Stream.feedRecv, Dig.feedRecv, Dig.feedSend, Dig.finalize, Dig.fs]
+  rw [h3] at this
+  exact digests_differ b1 b2 hfresh this
 
 /-! Non-vacuity (tests). -/
 def live : Entry := { id := "s1".toList, addr := [], key := some 7, crypto := "AES", user := "alice", authenticated := true,
